@@ -81,40 +81,7 @@ func c16Limits(c *Ctx) {
 		{"partition-bytes", Cmp{token.GEQ, BinOpOf(token.ADD, FieldLoad("partitionSet.bufferBytes"), size), FieldLoad("Config.Producer.MaxMessageBytes")}},
 		{"max-messages", Cmp{token.GEQ, FieldLoad("produceSet.bufferCount"), FieldLoad("Config.Producer.Flush.MaxMessages")}},
 	}
-	// a limit test can also be the value returned (`return max > 0 && count >= max`): the comparison then flows,
-	// through the φ of the short-circuit evaluation, into the result without ever being branched on
-	returned := func(pr Pred) *ssa.BinOp {
-		var found *ssa.BinOp
-		Info(fn).Each(func(it Item) {
-			bo, ok := it.In.(*ssa.BinOp)
-			if !ok || !pr.holds(bo, false) {
-				return
-			}
-			for _, r := range *bo.Referrers() {
-				switch x := r.(type) {
-				case *ssa.Return:
-					found = bo
-				case *ssa.Phi:
-					// the other edges of the φ are the constant false (the short-circuited operands)
-					okPhi := true
-					for _, e := range x.Edges {
-						if e == ssa.Value(bo) {
-							continue
-						}
-						if cst, isC := e.(*ssa.Const); !isC || cst.Value == nil || cst.Value.Kind() != constant.Bool || constant.BoolVal(cst.Value) {
-							okPhi = false
-						}
-					}
-					for _, r2 := range *x.Referrers() {
-						if _, isRet := r2.(*ssa.Return); isRet && okPhi {
-							found = bo
-						}
-					}
-				}
-			}
-		})
-		return found
-	}
+	returned := func(pr Pred) *ssa.BinOp { return returnedPredicate(fn, pr) }
 	for i, pr := range preds {
 		es := reg.EstablishingEdges(pr.p)
 		if len(es) == 0 {
@@ -205,6 +172,10 @@ func c16Flush(c *Ctx) {
 		for _, t := range triggers {
 			es := reg.EstablishingEdges(t.p)
 			if len(es) == 0 {
+				if bo := returnedPredicate(fn, t.p); bo != nil && (t.name == "count" || t.name == "bytes") {
+					c.Check(true, rule, fn, "trigger:"+t.name, bo, "trigger "+t.name+" is the value returned", "", nil)
+					continue
+				}
 				c.Fail(rule, fn, "trigger:"+t.name, nil, "trigger test "+t.name+" missing from readyToFlush", nil)
 				continue
 			}
@@ -425,3 +396,39 @@ func c16Estimate(c *Ctx) {
 	c.Check(bad == "", rule, fn, "estimate-computed-from-payload", at, "byteSize reads only Key, Value and Headers of the message and stores nothing into it",
 		"ProducerMessage.byteSize "+bad+": the estimate is not recomputed from the current payload (a remembered size survives the reuse of the message struct with a larger payload, which then passes MaxMessageBytes, the batch limit and MaxRequestSize)", nil)
 }
+
+// returnedPredicate: a comparison matching pr that is (through the φ of a short-circuit evaluation whose other
+// operands are the constant false) the value the function returns — `return max > 0 && count >= max` — rather
+// than a branch condition.
+func returnedPredicate(fn *ssa.Function, pr Pred) *ssa.BinOp {
+		var found *ssa.BinOp
+		Info(fn).Each(func(it Item) {
+			bo, ok := it.In.(*ssa.BinOp)
+			if !ok || !pr.holds(bo, false) {
+				return
+			}
+			for _, r := range *bo.Referrers() {
+				switch x := r.(type) {
+				case *ssa.Return:
+					found = bo
+				case *ssa.Phi:
+					// the other edges of the φ are the constant false (the short-circuited operands)
+					okPhi := true
+					for _, e := range x.Edges {
+						if e == ssa.Value(bo) {
+							continue
+						}
+						if cst, isC := e.(*ssa.Const); !isC || cst.Value == nil || cst.Value.Kind() != constant.Bool || constant.BoolVal(cst.Value) {
+							okPhi = false
+						}
+					}
+					for _, r2 := range *x.Referrers() {
+						if _, isRet := r2.(*ssa.Return); isRet && okPhi {
+							found = bo
+						}
+					}
+				}
+			}
+		})
+		return found
+	}
